@@ -16,8 +16,10 @@ theorem mapped_pos0 {c : Sys} (h : Ok c) (hn : 1 ≤ c.rds.length) : (cv c).m0 =
   exact (C02.read_region_committed hr 0 (by omega) hm).1
 
 theorem clHolds0_stop (pc : CPc) (s : Nat) : clHolds0 pc s = true → 3 ≤ stopStage pc s := by
-  unfold clHolds0 stopStage
-  split <;> simp_all
+  unfold clHolds0
+  intro h
+  simp only [Bool.or_eq_true, decide_eq_true_eq] at h
+  rcases h with (rfl | rfl) | rfl <;> simp [stopStage]
 
 theorem getD_idx0 (c : Sys) : c.idx.getD 0 0 = (cv c).i0 := rfl
 
@@ -25,19 +27,19 @@ theorem getD0_eq (c : Sys) : (c.rds.getD 0 {}).mapped = (cv c).m0 := rfl
 
 theorem DUse.flt (s : Nat) (cl : Client) : ∀ a ∈ fltActs, ∀ st, a.guard st = true → DUse s st cl → DUse s (a.upd st) cl := by
   intro a ha st hg h
-  obtain ⟨k1, k2, k3, k4, k5, k6, k7, k8, k9, k10, k11⟩ := h
+  obtain ⟨k1, k2, k3, k4, k5, k6, k7, k8, k9, k10, k11, k12, k13⟩ := h
   have hf : (step st.filtCh (.rmap 0)).1 = st.filtCh := by
     have := fresh_rmap st.filtCh.c.cap; rw [← k2] at this; exact this
   unfold fltActs at ha
   each_action ha
   all_goals (simp only [setFltPc, fltRead, chanOp, hf] at hg ⊢)
-  all_goals (exact ⟨k1, k2, k3, k4, k5, k6, k7, k8, k9, k10, k11⟩)
+  all_goals (exact ⟨k1, k2, k3, k4, k5, k6, k7, k8, k9, k10, k11, k12, k13⟩)
 
 set_option maxHeartbeats 4000000 in
 theorem DUse.snk (s : Nat) (cl : Client) (rs : DevState) : ∀ a ∈ snkActs s, ∀ st, a.guard st = true → TInv s st cl rs →
     DUse s st cl → DUse s (a.upd st) cl := by
   intro a ha st hg ht h
-  obtain ⟨k1, k2, k3, k4, k5, k6, k7, k8, k9, k10, k11⟩ := h
+  obtain ⟨k1, k2, k3, k4, k5, k6, k7, k8, k9, k10, k11, k12, k13⟩ := h
   have t1 := ht.start_snk; have t3 := ht.joined_snk; have t4 := ht.start_src; have hs8 := stage_le cl.pc s
   have hn1 : 1 ≤ st.sinkCh.rds.length := by have := k3; simp only [cv] at this; split at this <;> omega
   have hrm := cv_rmap0 k1 hn1
@@ -79,7 +81,7 @@ set_option maxHeartbeats 4000000 in
 theorem DUse.src (s : Nat) (cl : Client) (rs : DevState) : ∀ a ∈ srcActs s, ∀ st, a.guard st = true → TInv s st cl rs → st.cam.failAt = none → st.cam.emptyEvery = 0 →
     DUse s st cl → DUse s (a.upd st) cl := by
   intro a ha st hg ht hf he h
-  obtain ⟨k1, k2, k3, k4, k5, k6, k7, k8, k9, k10, k11⟩ := h
+  obtain ⟨k1, k2, k3, k4, k5, k6, k7, k8, k9, k10, k11, k12, k13⟩ := h
   have t1 := ht.start_src; have t2 := ht.after_err_stop
   have hnf : camFault st = false := by simp [camFault, faultHits, hf]
   have hne : camEmpty st = false := by simp [camEmpty, he]
@@ -128,6 +130,11 @@ theorem runmap1_bad {c : Sys} (_h : Ok c) (k : Nat) (hn : (cv c).nrd ≤ 1) : (s
 
 theorem getD1_eq (c : Sys) : (c.rds.getD 1 {}).mapped = (cv c).m1 := rfl
 theorem getD_idx1 (c : Sys) : c.idx.getD 1 0 = (cv c).i1 := rfl
+
+theorem filt_rmap {c : Sys} (h : c = freshChan c.c.cap) : (step c (.rmap 0)).1 = c := by
+  have := fresh_rmap c.c.cap; rw [← h] at this; exact this
+theorem filt_runmap {c : Sys} (h : c = freshChan c.c.cap) (k : Nat) : (step c (.runmap 0 k)).1 = c := by
+  have := fresh_runmap c.c.cap k; rw [← h] at this; exact this
 
 theorem nrd_pos {n : Nat} {b : Bool} (h : n = if b = true then 2 else 1) : 1 ≤ n := by split at h <;> omega
 
